@@ -118,6 +118,8 @@ def build_metadata(schema):
                 kw["index"] = True
                 if flagged[c["name"]].get("unique"):
                     kw["unique"] = True
+            elif c.get("uflag") and not c.get("computed"):
+                kw["unique"] = True   # Column(unique=True): an UNNAMED unique constraint (SQLite reflects it with name None)
             if c.get("pk"):
                 kw["primary_key"] = True
                 if c.get("autoinc") is False:
@@ -139,6 +141,8 @@ def build_metadata(schema):
         items = list(cols)
         for u in t.get("uqs", []):
             items.append(sa.UniqueConstraint(*u["cols"], name=u["name"]))
+        for u in t.get("uuqs", []):
+            items.append(sa.UniqueConstraint(*u["cols"]))   # unnamed: context only, never the object of a change
         for f in t.get("fks", []):
             items.append(
                 sa.ForeignKeyConstraint(
